@@ -13,6 +13,7 @@ struct HeapKnobs {
     int placement = 0;     // 0 bump (never reuse), 1 LIFO reuse, 2 first-fit
     int redzone = 64;      // bytes before and after every block
     int64_t capacity = 0;  // 0 = unlimited, else max live payload bytes
+    int smallStack = 0;    // 1: the call runs on a thread with a 512 KiB stack (8 MiB otherwise)
     JP toJson() const;
     static HeapKnobs fromJson(const JVal &j);
     static HeapKnobs benign();
